@@ -56,6 +56,12 @@ def cases(tier, seed):
     for v in ys[1::step]:
         for crit in CRITS:
             yield {"kind": "hist", "crit": crit, "n": n, "y": list(v)}
+    # targets with a huge range INSIDE one vector (a 3e16 outlier before unit-scale rows, a geometric series): the value of a node is
+    # the mean of its own rows, to the precision of its own rows, whatever the object computed for earlier nodes
+    for v in ([3e16, 1.0, 2.0, 5.0, 4.0], [1.0, 2.0, 3e16, 5.0, 4.0], [1e18, 1e16, 1e14, 1e12, 1e10], [-4e15, 3.0, 3.5, 1e-3, 2e-3],
+              [4.0, 5.0, 2.0, 1.0, 3e16]):
+        for crit in CRITS:
+            yield {"kind": "hist", "crit": crit, "n": n, "y": v, "value_only": True}
     # estimator
     ne = b["n_est"]
     for design in ("line", "plane", "dup", "offset"):
@@ -116,7 +122,8 @@ def _check_state(C, crit_obj, cname, y, w, X, samples, start, pos, end, Wtot, ba
         # targets far from zero: the one-pass variance loses its digits by construction; only the node value is compared
         val, _imp, _Wn = _ref(y, w, None, samples[start:end])
         v = C._test_criterion_node_value(crit_obj)
-        if abs(v - val) > 1e-12 * max(1.0, abs(val)) * len(y):
+        scale = float(numpy.abs(y[samples[start:end]]).max()) if end > start else 1.0     # the node's OWN rows set the precision
+        if abs(v - val) > 1e-12 * max(1e-300, abs(val), scale) * len(y):
             bad("node_value", "%r expected %r %s" % (v, val, desc()))
         return 1
     node = samples[start:end]
@@ -209,6 +216,7 @@ def _hist(case):
     from mlinsights.mlmodel import _piecewise_tree_regression_common as C
 
     n, cname, ys = case["n"], case["crit"], case["y"]
+    vo = bool(case.get("value_only"))
     viol = []
     sigs = set()
     y = numpy.array(ys, dtype=numpy.float64)
@@ -247,7 +255,7 @@ def _hist(case):
                                 C, crit_obj, cname, y, w, X, samples, s2, p2, e2, Wtot, bad,
                                 lambda: "y=%r w=%r order=%r history init(%d,%d) update(%d) init(%d,%d) sweep to %d" % (
                                     ys, None if w is None else wl, order, s1, e1, p1, s2, e2, p2),
-                                with_proxy=(p2 % 2 == 0))
+                                with_proxy=(p2 % 2 == 0), value_only=vo)
     # jumps of the split position inside one node, forward AND backward (update(pa); update(pb) with no reset in between): the state
     # reached is the state of (start, pb, end) whatever the path
     order = list(range(n))
@@ -268,7 +276,7 @@ def _hist(case):
                     cnt += _check_state(
                         C, crit_obj, cname, y, w, X, samples, s1, pb, e1, Wtot, bad,
                         lambda: "y=%r w=%r history init(%d,%d) update(%d) update(%d)" % (ys, None if w is None else wl, s1, e1, pa, pb),
-                        with_proxy=(pa % 2 == 0))
+                        with_proxy=(pa % 2 == 0), value_only=vo)
     return {"viol": viol, "nontrivial": len(set(ys)) > 1, "states": states, "transitions": cnt,
             "outcome": ("hist", cname)}
 
